@@ -1,18 +1,20 @@
 """C16 -- the --dfa and --regex Graphviz dumps are well-formed and show the real automaton.
 
-Theorem side: Props/C16.v (reading back what the model of DFA::to_dot prints gives the prescribed graph,
-outside the known-finding classes; the label codec; witnesses that the pinned escaping fails).
-Tie T1: Model.Dot.of_dfa / of_regex (extracted) on Rust's own MIN automaton / REGEX arena must give
-byte-for-byte the DFADOT / REGEXDOT texts, 4 shells.  The model is one definition with a flag per
-proposed patch: a text equal to the pinned instance or to the instance with some of the patches applied
-ties (evidence: model_variant_matched); known findings are attributed only on the pinned instance.
+Theorem side: Props/C16.v (C16_dfa_dot, C16_regex_dot: for the code as it is now -- after commit 0e66d33 --
+reading back what the model of DFA::to_dot / Regex::to_dot prints gives the prescribed graph, no exception
+on the automata/arenas Rust produces; the label codec; witnesses that the code before the fix failed).
+Tie T1: Model.Dot.of_dfa / of_regex (extracted, variant `current`) on Rust's own MIN automaton / REGEX arena
+must give byte-for-byte the DFADOT / REGEXDOT texts, 4 shells.  The model is one definition with a flag per
+hunk of the fix: a text equal to another instance (the code before the fix, the code with the optional
+hunk, a partially patched tree) also ties and is counted under its name (evidence: model_variant_matched).
 Direct judgement: Spec.DotRead.read (extracted; the only judge: there is no `dot` here) on *Rust's* two
 texts must succeed; the graph read from the --dfa text must be the one Spec.DotSpec.graph_of_dfa prescribes
 for Rust's MIN automaton (node set, shapes, labels that render back to the item's text, edge multiset,
 clusters numbered as the TABLES stage numbers the within-word automata); every input of the regex must
-label a node of the graph read from the --regex text (inside the right cluster).  A violation is
-attributed to a known-finding class only if (a) the tie holds for that input, (b) the extracted Coq
-predicate of the class holds and (c) the model with exactly that mechanism patched is judged correct."""
+label a node of the graph read from the --regex text (inside the right cluster); the hypotheses of the
+theorems (wf_cdfa, starts_at_zero, rx_total_b, rx_wf_b) must hold on Rust's data.  The three findings of
+this property are fixed: nothing is suppressed; the replay of a violation records which of the old
+mechanisms, if any, explains it."""
 import collections
 import os
 import tempfile
@@ -23,17 +25,19 @@ SHELLS = ['bash', 'fish', 'zsh', 'pwsh']
 BASE = {'bash': 0, 'pwsh': 0, 'fish': 1, 'zsh': 1}
 
 MANIFEST = dict(
-    text=('Theorems (Props/C16.v): C16_dfa_dot -- for every well-formed automaton outside the known-finding classes '
-          '(known_C16: a label that needs a backslash, numbering base 1 with a within-word automaton, state 0 absent), '
-          'Spec.DotRead.read of the exact text the Gallina model of DFA::to_dot writes succeeds and the graph read is the one '
-          'Spec.DotSpec.graph_of_dfa prescribes (one node per state numbered state+base, start/accepting shapes, one edge per '
-          'transition whose label renders to the item text, one cluster per within-word automaton with dashed edges in and out); '
-          'C16_dfa_dot_patched -- the same for every well-formed automaton with no exception for the code after the proposed '
-          'patches; C16_label_codec -- read_quoted (quote (escape s) ++ rest) = (s rendered back, rest) for the escaping the code '
-          'should use; C16_refuted_* -- vm_compute witnesses that the pinned code breaks on quotes/backslashes, base 1 and a '
-          'missing state 0; C16_regex_* -- the --regex text of the patched printer reads back and every input labels a node. '
-          'The model is tied to src/dfa.rs and src/regex.rs on every run by exact text comparison on Rust\'s own MIN automaton '
-          'and regex arena (4 shells); Rust\'s files are judged directly by the extracted reader and specification.'),
+    text=('Theorems (Props/C16.v): C16_dfa_dot -- for every well-formed automaton whose start state is 0 (what minimize returns; '
+          'wf_cdfa and starts_at_zero are run on Rust\'s MIN automaton on every run), Spec.DotRead.read of the exact text the '
+          'Gallina model of DFA::to_dot (the code as it is now) writes succeeds and the graph read is, up to the order of nodes '
+          'and edges, the one Spec.DotSpec.graph_of_dfa prescribes (one node per state numbered state+base, start/accepting '
+          'shapes, one edge per transition whose label renders to the item text, one cluster per within-word automaton with '
+          'dashed edges in and out); C16_regex_dot -- on a well-built arena (rx_total_b, rx_wf_b: run on Rust\'s REGEX stage on '
+          'every run) the model of Regex::to_dot returns a text, it is valid DOT and every position of the regex and of each '
+          'within-word regex it uses labels a node (inside cluster_R); C16_label_codec / C16_lines_codec -- the codec leaves; '
+          'C16_dfa_dot_old / C16_regex_dot_old / C16_refuted_* -- the code before commit 0e66d33 was right exactly outside its '
+          'three classes, with vm_compute witnesses inside them; C16_refuted_phantom_node -- the latent class left (state 0 not a '
+          'state; empty on minimised automata). The model is tied to src/dfa.rs and src/regex.rs on every run by exact text '
+          'comparison on Rust\'s own MIN automaton and regex arena (4 shells); Rust\'s files are judged directly by the extracted '
+          'reader and specification.'),
     design='6 C16',
     technique='Coq theorem (reader o printer = prescribed graph; codec leaf) + extracted-model/implementation text equality (T1) '
               '+ extracted reader/specification judging the implementation\'s files + binary run')
@@ -165,14 +169,14 @@ def run(ctx, res):
         for sh in SHELLS:
             st = d[sh]
             if st.get('REGEX', '').startswith('(ok ') and 'REGEXDOT' in st:
-                reqs.append('dotregex pinned %s' % st['REGEX']); index.append((i, sh, 'rx-model'))
-                reqs.append('dotregex patched %s' % st['REGEX']); index.append((i, sh, 'rx-model-patched'))
+                reqs.append('dotregex current %s' % st['REGEX']); index.append((i, sh, 'rx-model'))
+                reqs.append('dotregex old %s' % st['REGEX']); index.append((i, sh, 'rx-model-old'))
                 reqs.append('dotjudgeregex %s %s' % (st['REGEX'], st['REGEXDOT'])); index.append((i, sh, 'rx-judge'))
                 if sh == 'bash':
                     reqs.append('dotrxwf %s' % st['REGEX']); index.append((i, sh, 'rx-wf'))
             if st.get('MIN', '').startswith('(ok ') and 'DFADOT' in st:
                 mn = st['MIN'][4:-1]
-                reqs.append('dotdfa pinned %d %s' % (BASE[sh], mn)); index.append((i, sh, 'dfa-model'))
+                reqs.append('dotdfa current %d %s' % (BASE[sh], mn)); index.append((i, sh, 'dfa-model'))
                 reqs.append('dotdfa patched %d %s' % (BASE[sh], mn)); index.append((i, sh, 'dfa-model-patched'))
                 reqs.append('dotjudgedfa %d %s %s' % (BASE[sh], mn, st['DFADOT'])); index.append((i, sh, 'dfa-judge'))
                 if sh == 'bash':
@@ -181,7 +185,7 @@ def run(ctx, res):
                     reqs.append('dotsubids %d %s' % (BASE[sh], mn)); index.append((i, sh, 'subids'))
     outs = model.run(reqs)
     by = dict(zip(index, outs))
-    # second round: classification of what failed; for texts that are neither the pinned nor the fully
+    # second round: diagnosis of what failed; for texts that are neither the current nor the fully
     # patched model's, the model with each subset of the patches (a partially patched tree)
     creqs, cindex = [], []
     for (i, sh, k), o in list(by.items()):
@@ -200,7 +204,7 @@ def run(ctx, res):
             creqs.append('dotclassregex %s' % st['REGEX']); cindex.append((i, sh, 'rx-class'))
     by.update(dict(zip(cindex, model.run(creqs))))
 
-    res.rule = ('fixed corpus (witnesses of every known mechanism, shared/duplicated within-word automata, shell-specific '
+    res.rule = ('fixed corpus (witnesses of every mechanism found, shared/duplicated within-word automata, shell-specific '
                 'definitions) + random grammars over literals, descriptions, commands and nonterminal names containing double '
                 'quotes, backslashes (also at the end, before a quote, as \\n \\N \\l), braces, DOT punctuation and keywords, control '
                 'and non-ASCII printable characters, with several within-word automata, x 4 shells; non-trivial = accepted grammar '
@@ -225,11 +229,11 @@ def run(ctx, res):
                 res.evaluations += 1
                 mod = by[(i, sh, 'rx-model')]
                 tie = mod == '(ok %s)' % st['REGEXDOT']
-                variants['regex:pinned' if tie else 'regex:other'] += 1
-                if not tie and by[(i, sh, 'rx-model-patched')] == '(ok %s)' % st['REGEXDOT']:
+                variants['regex:current' if tie else 'regex:other'] += 1
+                if not tie and by[(i, sh, 'rx-model-old')] == '(ok %s)' % st['REGEXDOT']:
                     tie = True
                     variants['regex:other'] -= 1
-                    variants['regex:patched'] += 1
+                    variants['regex:old'] += 1
                 judge = by[(i, sh, 'rx-judge')]
                 if tie:
                     res.traces_validated += 1
@@ -238,15 +242,16 @@ def run(ctx, res):
                         'C16: Rust\'s regex arena is not well-formed in the sense of the theorems (rx_wf_b && rx_total_b): ' + by[(i, sh, 'rx-wf')],
                         dict(replay, kind='theorem-hypothesis'), found_input=False))
                 if judge != '(ok)':
-                    cls = None
+                    # the findings of this property are fixed: nothing is suppressed; the diagnosis goes into the replay
                     c = sexp.parse(by[(i, sh, 'rx-class')])
-                    known = str(c[0][1]) == 'true'
-                    if mod == '(ok %s)' % st['REGEXDOT'] and known and str(c[1][1]) != 'ok' and str(c[2][1]) == 'ok':
-                        cls = 'dot_regex_label_raw'
+                    old_mech = (by[(i, sh, 'rx-model-old')] == '(ok %s)' % st['REGEXDOT'] and str(c[0][1]) == 'true'
+                                and str(c[1][1]) != 'ok' and str(c[2][1]) == 'ok')
                     what = ('--regex file is not valid DOT' if judge == '(readfail)'
                             else '--regex file lacks a labelled node for an item: ' + judge[:200])
+                    if old_mech:
+                        what += ' [the mechanism fixed by 0e66d33 (labels written verbatim) is back]'
                     res.violations.append(report.Violation('C16: ' + what, dict(replay, kind='spec-judgement', judge=judge,
-                                                                               classification=by[(i, sh, 'rx-class')], model=mod[:3000]), cls=cls))
+                                                                               classification=by[(i, sh, 'rx-class')], model=mod[:3000])))
                 elif not tie:
                     res.violations.append(report.Violation('tie T1 broken at Regex::to_dot: model text differs',
                                                            dict(replay, kind='tie-T1', stage='regexdot', model=mod[:3000]), found_input=False))
@@ -257,7 +262,7 @@ def run(ctx, res):
                 mod = by[(i, sh, 'dfa-model')]
                 tie = mod == '(ok %s)' % st['DFADOT']
                 if tie:
-                    variants['dfa:pinned'] += 1
+                    variants['dfa:current'] += 1
                 elif by[(i, sh, 'dfa-model-patched')] == '(ok %s)' % st['DFADOT']:
                     tie = True
                     variants['dfa:patched'] += 1
@@ -277,30 +282,27 @@ def run(ctx, res):
                 ok = True
                 if judge != '(ok)':
                     ok = False
+                    # the findings of this property are fixed: nothing is suppressed; the diagnosis goes into the replay
                     c = sexp.parse(by[(i, sh, 'dfa-class')])
                     known = dict(labels=str(c[0][1]) == 'true', subacc=str(c[0][2]) == 'true')
                     fixes = {str(x[0]): str(x[1]) for x in c[1:]}
-                    classes = []
-                    if mod == '(ok %s)' % st['DFADOT'] and fixes['pinned'] != 'ok':
+                    back = []
+                    if fixes['old'] != 'ok' and not tie:
                         if known['labels'] and fixes['esc'] == 'ok':
-                            classes = ['dot_dfa_label_escaping']
-                        elif known['subacc'] and fixes['subacc'] == 'ok':
-                            classes = ['dot_subword_accepting_no_base']
-                        elif known['labels'] and known['subacc'] and fixes['both'] == 'ok':
-                            classes = ['dot_dfa_label_escaping', 'dot_subword_accepting_no_base']
+                            back.append('label escaping')
+                        if known['subacc'] and fixes['subacc'] == 'ok':
+                            back.append('accepting states without base')
                     what = ('--dfa file is not valid DOT' if judge == '(readfail)'
                             else '--dfa file does not show the automaton: ' + judge[:300])
+                    if back:
+                        what += ' [mechanism fixed by 0e66d33 possibly back: %s]' % ', '.join(back)
                     rp = dict(replay, kind='spec-judgement', judge=judge, classification=by[(i, sh, 'dfa-class')], model=mod[:3000])
-                    if classes:
-                        for cl in classes:
-                            res.violations.append(report.Violation('C16: ' + what, rp, cls=cl))
-                    else:
-                        res.violations.append(report.Violation('C16: ' + what, rp))
+                    res.violations.append(report.Violation('C16: ' + what, rp))
                 # the hypothesis of the theorems holds for the automaton Rust produced
                 if by.get((i, sh, 'wf'), 'true') != 'true':
                     ok = False
                     res.violations.append(report.Violation(
-                        'C16: Rust\'s minimised automaton is not well-formed in the sense of the theorems (wf_cdfa): ' + by[(i, sh, 'wf')],
+                        'C16: Rust\'s minimised automaton is not well-formed in the sense of the theorems (wf_cdfa && starts_at_zero): ' + by[(i, sh, 'wf')],
                         dict(replay, kind='theorem-hypothesis'), found_input=False))
                 # numbering of the clusters = numbering of the within-word automata in the script's tables
                 if (i, sh, 'subids') in by and 'TABLES' in st:
@@ -318,7 +320,7 @@ def run(ctx, res):
                     sample_budget -= 1
                     res.samples.append(dict(grammar=text.decode('utf-8', 'replace'), shell=sh, dfadot=st['DFADOT'][:600], judge=judge))
     res.nontrivial = len(nontrivial)
-    # replays are written for the first few violations: put first those on inputs outside every known class
+    # replays are written for the first few violations: put first those on inputs outside the old classes
     res.violations.sort(key=lambda v: 0 if (v.cls is None and '(known true' not in str(v.replay.get('classification', ''))) else 1)
     res.extra['accepted_grammar_shell_pairs'] = accepted
     res.extra['model_variant_matched'] = dict(variants)
